@@ -402,6 +402,31 @@ func symbolicStringFunc(fr *frame, name string, args []value) (value, bool) {
 			return strValue(rest), true
 		}
 		return strValue(a), true
+	case "strings.Cut":
+		a, ok1 := str(0)
+		b, ok2 := str(1)
+		if !ok1 || !ok2 || !b.isConst() || len(b.S) != 1 {
+			return nil, false
+		}
+		sep := b.S[0]
+		var before []*Term
+		parts := strParts(a)
+		for k, p := range parts {
+			if p.isConst() {
+				if idx := indexByte(p.S, sep); idx >= 0 {
+					before = append(before, mkStr(p.S[:idx]))
+					after := append([]*Term{mkStr(p.S[idx+1:])}, parts[k+1:]...)
+					return tuple{strValue(mkConcat(before...)), strValue(mkConcat(after...)), true}, true
+				}
+				before = append(before, p)
+				continue
+			}
+			if !fr.i.ps.partExcludes(p, sep) {
+				unsupported("strings.Cut of symbolic string %s whose parts may contain %q", a, b.S)
+			}
+			before = append(before, p)
+		}
+		return tuple{strValue(a), "", false}, true
 	case "strconv.FormatInt", "strconv.Itoa", "strconv.FormatUint", "strconv.FormatBool":
 		// decimal rendering of a symbolic number: an opaque string. Nothing
 		// is known about it, so anything that branches on it is explored both
